@@ -160,6 +160,39 @@ def _browser_qu_local(g: FuncInfo) -> str:
     return c[0]
 
 
+def lookup_history_obligations(ctx: Any, R: str, eff: Any) -> List[Ob]:
+    """Decision table of the lookup's question builder over (QU?, history suppresses?): a QU question is always asked and the
+    history is neither consulted nor written for it."""
+    prog = ctx.prog
+    obs: List[Ob] = []
+    # lookup builder
+    f = prog.func(INQ)
+    p_qu, p_skip = f.params[2], f.params[9]
+    for qu in (True, False):
+        for sup in (True, False):
+            atoms = {p_qu: qu, p_skip: False, '.suppresses()': sup}
+            oc, und = traces(ctx, f, atoms, eff, loop_bound=1)
+            got = {tuple(x for x in strip_ret(t)) for t in oc}
+            want = ('ASK',) if qu else (('CONSULT',) if sup else ('CONSULT', 'RECORD', 'ASK'))
+            obs.append(ob(R, f, f'lookup: QU={qu} history suppresses={sup}', f'effects {want}', got == {want}, f'got {sorted(got)} undecided {und}'))
+    return obs
+
+
+def history_effects(node: Any, evl: Any) -> List[Any]:
+    out = []
+    for c in fd.node_calls(node, evl):
+        nm = call_name(c)
+        if nm == 'suppresses' and isinstance(c.func, ast.Attribute) and 'history' in norm(c.func.value):
+            out.append('CONSULT')
+        elif nm == 'add_question_at_time':
+            out.append('RECORD')
+        elif nm == 'add_question':
+            out.append('ASK')
+    if node.kind == 'stmt' and isinstance(node.ast, ast.Assign) and isinstance(node.ast.targets[0], ast.Subscript) and 'questions_with_known_answers' in norm(node.ast.targets[0].value):
+        out.append('ASK')
+    return out
+
+
 @rule('C13.HISTORY', 'D', expect_min=8)
 def history(ctx: Any) -> List[Ob]:
     """Duplicate-question suppression as a decision table over (QU?, history
@@ -184,16 +217,8 @@ def history(ctx: Any) -> List[Ob]:
             out.append('ASK')
         return out
 
-    # lookup builder
     f = prog.func(INQ)
-    p_qu, p_skip = f.params[2], f.params[9]
-    for qu in (True, False):
-        for sup in (True, False):
-            atoms = {p_qu: qu, p_skip: False, '.suppresses()': sup}
-            oc, und = traces(ctx, f, atoms, eff, loop_bound=1)
-            got = {tuple(x for x in strip_ret(t)) for t in oc}
-            want = ('ASK',) if qu else (('CONSULT',) if sup else ('CONSULT', 'RECORD', 'ASK'))
-            obs.append(ob(R, f, f'lookup: QU={qu} history suppresses={sup}', f'effects {want}', got == {want}, f'got {sorted(got)} undecided {und}'))
+    obs.extend(lookup_history_obligations(ctx, R, eff))
     # browser builder: per type loop body
     g = prog.func(BRQ)
     cfg = cfg_of(g.node)
@@ -280,6 +305,19 @@ def history(ctx: Any) -> List[Ob]:
                     why = 'the RRSet is not built from the answers of every packet'
     obs.append(ob(R, ar, rec_calls[0] if rec_calls else 'add_question_at_time', 'a heard QM question is remembered with the union of the known answers of all packets of the (possibly truncated) query -- the same set used for suppression', good, why))
     return obs
+
+
+@rule('C13.SPLIT', 'D', expect_min=8)
+def split(ctx: Any) -> List[Ob]:
+    """Known answers that do not fit are continued in further packets and every packet but the last carries the TC bit --
+    for a query sent to a unicast address as well as for a multicast one (the decision table of the flags word of
+    DNSOutgoing.packets over (more remains, query, multicast), shared with C14.TC)."""
+    from .c14 import tc
+
+    out = tc.fn(ctx)
+    for o in out:
+        o.rule = 'C13.SPLIT'
+    return out
 
 
 @rule('C13.QUFIRST', 'D', expect_min=10)
@@ -434,4 +472,4 @@ EXPLANATION = (
     'C13.CONST (decided): lookup spacing constants. TC bit / splitting: C14. Not decided: behaviour over all cache contents and '
     'relative timings [X].'
 )
-RULES = [known, history, qufirst, const]
+RULES = [known, history, split, qufirst, const]
